@@ -290,3 +290,23 @@ func (c *Cache[K, V]) VerifPolicyRand(f func() uint32) {
 		c.cache.evictionPolicy.rand = f
 	}
 }
+
+// VerifMaximum reads the policy maximum without running maintenance (GetMaximum may run it).
+func (c *Cache[K, V]) VerifMaximum() uint64 {
+	if !c.cache.withEviction {
+		return ^uint64(0)
+	}
+	return c.cache.evictionPolicy.maximum
+}
+
+// VerifNew is New without runtime.AddCleanup: cleanups delay the release of every cache by one
+// more GC cycle, which matters when millions of short-lived caches are explored.
+func VerifNew[K comparable, V any](o *Options[K, V]) (*Cache[K, V], error) {
+	if o == nil {
+		o = &Options[K, V]{}
+	}
+	if err := o.validate(); err != nil {
+		return nil, err
+	}
+	return &Cache[K, V]{cache: newCache(o)}, nil
+}
